@@ -202,6 +202,12 @@ theories/FileIO/FileSpec.vos theories/FileIO/FileSpec.vok theories/FileIO/FileSp
 theories/FileIO/FileSpecProofs.vo theories/FileIO/FileSpecProofs.glob theories/FileIO/FileSpecProofs.v.beautified theories/FileIO/FileSpecProofs.required_vo: theories/FileIO/FileSpecProofs.v theories/FileIO/FileSpec.vo
 theories/FileIO/FileSpecProofs.vio: theories/FileIO/FileSpecProofs.v theories/FileIO/FileSpec.vio
 theories/FileIO/FileSpecProofs.vos theories/FileIO/FileSpecProofs.vok theories/FileIO/FileSpecProofs.required_vos: theories/FileIO/FileSpecProofs.v theories/FileIO/FileSpec.vos
+theories/FileIO/FileBuf.vo theories/FileIO/FileBuf.glob theories/FileIO/FileBuf.v.beautified theories/FileIO/FileBuf.required_vo: theories/FileIO/FileBuf.v 
+theories/FileIO/FileBuf.vio: theories/FileIO/FileBuf.v 
+theories/FileIO/FileBuf.vos theories/FileIO/FileBuf.vok theories/FileIO/FileBuf.required_vos: theories/FileIO/FileBuf.v 
+theories/FileIO/FileBufProofs.vo theories/FileIO/FileBufProofs.glob theories/FileIO/FileBufProofs.v.beautified theories/FileIO/FileBufProofs.required_vo: theories/FileIO/FileBufProofs.v theories/FileIO/FileBuf.vo
+theories/FileIO/FileBufProofs.vio: theories/FileIO/FileBufProofs.v theories/FileIO/FileBuf.vio
+theories/FileIO/FileBufProofs.vos theories/FileIO/FileBufProofs.vok theories/FileIO/FileBufProofs.required_vos: theories/FileIO/FileBufProofs.v theories/FileIO/FileBuf.vos
 theories/Properties_C09.vo theories/Properties_C09.glob theories/Properties_C09.v.beautified theories/Properties_C09.required_vo: theories/Properties_C09.v theories/FileIO/Chunks.vo theories/FileIO/ChunksProofs.vo theories/FileIO/FileSpec.vo theories/FileIO/FileSpecProofs.vo
 theories/Properties_C09.vio: theories/Properties_C09.v theories/FileIO/Chunks.vio theories/FileIO/ChunksProofs.vio theories/FileIO/FileSpec.vio theories/FileIO/FileSpecProofs.vio
 theories/Properties_C09.vos theories/Properties_C09.vok theories/Properties_C09.required_vos: theories/Properties_C09.v theories/FileIO/Chunks.vos theories/FileIO/ChunksProofs.vos theories/FileIO/FileSpec.vos theories/FileIO/FileSpecProofs.vos
